@@ -274,6 +274,15 @@ class Schema:
         except AnalysisError:
             return App("nonconst", ())
 
+    def _const_of(self, expr, mod):
+        """Value of a literal or of a name / expression that folds to a constant (a named constant of the module), else None."""
+        if isinstance(expr, ast.Constant):
+            return expr.value
+        try:
+            return self.ev.const(expr, mod)
+        except AnalysisError:
+            return None
+
     def from_cbor_always_raises(self, ci: ClassInfo) -> bool:
         """Description-only alternative: its from_cbor unconditionally raises (any signature)."""
         m = self.repo.lookup_method(ci, "from_cbor")
@@ -306,14 +315,14 @@ class Schema:
                                 and isinstance(t.args[0], ast.Name) and t.args[0].id == p:
                             out.add("type:" + "|".join(sorted(x.id for x in ast.walk(t.args[1]) if isinstance(x, ast.Name))))
                         if isinstance(t, ast.Compare) and isinstance(t.left, ast.Call) and isinstance(t.left.func, ast.Name) and t.left.func.id == "len" \
-                                and isinstance(t.comparators[0], ast.Constant):
-                            out.add(f"len{type(t.ops[0]).__name__}{t.comparators[0].value}")
+                                and self._const_of(t.comparators[0], c.module) is not None:
+                            out.add(f"len{type(t.ops[0]).__name__}{self._const_of(t.comparators[0], c.module)}")
                         if isinstance(t, ast.Call) and isinstance(t.func, ast.Attribute) and t.func.attr.startswith("is") and isinstance(t.func.value, ast.Name) \
                                 and t.func.value.id == p:
                             out.add("chars:" + t.func.attr)
-                        if isinstance(t, ast.Compare) and isinstance(t.left, ast.Name) and t.left.id == p and isinstance(t.comparators[0], ast.Constant) \
+                        if isinstance(t, ast.Compare) and isinstance(t.left, ast.Name) and t.left.id == p and self._const_of(t.comparators[0], c.module) is not None \
                                 and any(isinstance(o, (ast.Lt, ast.Gt, ast.LtE, ast.GtE)) for o in t.ops):
-                            out.add(f"range{type(t.ops[0]).__name__}{t.comparators[0].value}")
+                            out.add(f"range{type(t.ops[0]).__name__}{self._const_of(t.comparators[0], c.module)}")
         return sorted(out)
 
     def leaf_constraints(self, ci: ClassInfo) -> dict:
@@ -331,13 +340,14 @@ class Schema:
             for n in ast.walk(m.node):
                 if isinstance(n, ast.Compare) and len(n.ops) == 1 and isinstance(n.ops[0], (ast.NotEq, ast.Eq)):
                     l, r = n.left, n.comparators[0]
+                    rv = self._const_of(r, c.module)
                     if isinstance(l, ast.Call) and isinstance(l.func, ast.Name) and l.func.id == "len" \
-                            and isinstance(r, ast.Constant) and isinstance(r.value, int):
-                        out["size"] = r.value
+                            and isinstance(rv, int) and not isinstance(rv, bool):
+                        out["size"] = rv
                 if isinstance(n, ast.Compare) and len(n.ops) == 1 and isinstance(n.ops[0], ast.Gt):
                     l, r = n.left, n.comparators[0]
                     if isinstance(l, ast.Call) and isinstance(l.func, ast.Name) and l.func.id == "len" \
-                            and isinstance(r, ast.Constant) and r.value == 0:
+                            and self._const_of(r, c.module) == 0 and self._const_of(r, c.module) is not False:
                         out["size"] = 0
         return out
 
